@@ -75,7 +75,7 @@ def terminal_contract(L):
 
     def instances(tier):
         out = []
-        for n, d, i in [(2, 1, 0), (2, 2, 1)] + ([(3, 2, 2)] if tier == "thorough" else []):
+        for n, d, i in [(2, 1, 0), (2, 2, 1), (3, 2, 1)] + ([(3, 2, 2)] if tier == "thorough" else []):
             def make(rng, n=n, d=d, i=i):
                 return (jnp.asarray(rng.normal(size=(d,))), L.normal_obj(rng, n, d), _std_like(L, rng, d)), {"i": i}
             out.append(Instance(f"n={n},d={d},i={i}", make, positive=lambda a, k: [a[2]]))
